@@ -351,6 +351,8 @@ type world struct {
 	srcs   []string
 	srcTag map[string]int
 	quit   chan struct{}
+	// actors resumed by fused steps whose observations wait for the next table read
+	pending []*actorT
 }
 
 // close ends the case: retry loops leave with "already shut-down", parked actors exit
